@@ -14,7 +14,8 @@ EXPLANATION = ("R02.1 for every swap edge (emitting step -> vAMM swap -> reply s
                "values the engine parses are the ones the vAMM swap / funding handlers emit; R02.4 reduce is chosen only when the "
                "position's spot value exceeds the order; R02.5 the direction stored with a changed size derives from the side that signs "
                "the change wherever the size grows (a zero-size record's direction is arbitrary) and is kept only where the size shrinks, "
-               "so 'size > 0 iff direction == AddToAmm' is an inductive invariant of live records.")
+               "so 'size > 0 iff direction == AddToAmm' is an inductive invariant of live records."
+               " R02.7 every position store/remove is keyed by the acting (vamm, trader) pair.")
 NOT_DECIDED = ("nothing numeric is involved beyond operand identity; the invariant is inductive over the analysed reply paths only "
                "(records written by other code would be reported by R10.1 / R02.2).")
 
